@@ -306,6 +306,27 @@ def _mod_small(I, a, L):
     return z3.Implies(z3.And(0 <= za, za < zl), M(za, zl) == za)
 
 
+@reg('mod_qr')
+def _mod_qr(I, a, q, r, L):
+    """PROVED lemma for the uninterpreted pymod / pyfloordiv (uniqueness of division with remainder):
+    L >= 1 and a == q*L + r and 0 <= r < L  ==>  a % L == r and a // L == q.
+    Closed statement = obligation of this run (QF_UFNIA; the ring identity L*(q - d) == L*q - L*d is supplied as a hint and is
+    an obligation itself); the instance for (a, q, r, L) is returned."""
+    from .interp import Obligation
+    M, D = Interp.MODU, Interp.DIVU
+    x, y, q0, r0, k = z3.Int('lemma!a'), z3.Int('lemma!L'), z3.Int('lemma!q'), z3.Int('lemma!r'), z3.Int('lemma!k')
+    ring = z3.Implies(k == q0 - D(x, y), y * k == y * q0 - y * D(x, y))
+    closed = z3.Implies(z3.And(y >= 1, x == q0 * y + r0, 0 <= r0, r0 < y, Interp.umod_def(x, y),
+                               k == q0 - D(x, y), y * k == y * q0 - y * D(x, y)),
+                        z3.And(M(x, y) == r0, D(x, y) == q0))
+    I.n_oblig += 2
+    I.obligs.append(Obligation(f'{I.qual}#lemma:mod_qr-ring-identity', [], ring, 'lemma', {'clause': 'k == q - d ==> L*k == L*q - L*d'}))
+    I.obligs.append(Obligation(f'{I.qual}#lemma:mod_qr', [], closed, 'lemma',
+                               {'clause': 'L >= 1 and a == q*L + r and 0 <= r < L  ==>  a % L == r and a // L == q', 'prefer': 'cvc5'}))
+    za, zq, zr, zl = to_z3(a), to_z3(q), to_z3(r), to_z3(L)
+    return z3.Implies(z3.And(zl >= 1, za == zq * zl + zr, 0 <= zr, zr < zl), z3.And(M(za, zl) == zr, D(za, zl) == zq))
+
+
 @reg('c_div')
 def _c_div(I, a, b):
     """C integer division (truncation towards zero): what `//` means under Cython's cdivision(True)"""
